@@ -132,6 +132,41 @@ theorem subBitPrecision_spec (eps : ℚ) (n : Nat) (h : 0 < eps * n) :
     rw [div_le_iff₀ h] at h4
     linarith
 
+/-- the number of sub-bits is minimal: one bit less is not enough (or there are none) -/
+theorem subBitPrecision_minimal (eps : ℚ) (n : Nat) (h : 0 < eps * n) :
+    subBitPrecision eps n = 0 ∨ eps * n * (2 ^ (subBitPrecision eps n - 1) : ℕ) < 1 := by
+  unfold subBitPrecision
+  simp only
+  split
+  · exact Or.inl rfl
+  · rename_i h1
+    right
+    have hx : eps * n < 1 := lt_of_not_ge h1
+    have hinv : (1 : ℚ) < 1 / (eps * n) := by
+      rw [lt_div_iff₀ h]; linarith
+    have hc0 : (0 : ℤ) ≤ (1 / (eps * n)).ceil := by
+      rw [ceil_eq]; exact Int.ceil_nonneg (by positivity)
+    have hq2 : 2 ≤ (1 / (eps * n)).ceil.toNat := by
+      have : (1 : ℤ) < (1 / (eps * n)).ceil := by
+        rw [ceil_eq]; exact Int.lt_ceil.mpr (by exact_mod_cast hinv)
+      omega
+    have hqlt : (((1 / (eps * n)).ceil.toNat : ℕ) : ℚ) < 1 / (eps * n) + 1 := by
+      have : (((1 / (eps * n)).ceil.toNat : ℕ) : ℚ) = ((1 / (eps * n)).ceil : ℚ) := by
+        rw [← Int.cast_natCast, Int.toNat_of_nonneg hc0]
+      rw [this]; exact Rat.ceil_lt
+    unfold clog2
+    have hne : ¬ (1 / (eps * n)).ceil.toNat ≤ 1 := by omega
+    simp only [hne, if_false, Nat.add_sub_cancel]
+    have hlog := Nat.log2_self_le (n := (1 / (eps * n)).ceil.toNat - 1) (by omega)
+    have hcast : ((2 ^ Nat.log2 ((1 / (eps * n)).ceil.toNat - 1) : ℕ) : ℚ) ≤
+        (((1 / (eps * n)).ceil.toNat - 1 : ℕ) : ℚ) := by exact_mod_cast hlog
+    have hsub : ((((1 / (eps * n)).ceil.toNat - 1 : ℕ)) : ℚ) = (((1 / (eps * n)).ceil.toNat : ℕ) : ℚ) - 1 := by
+      rw [Nat.cast_sub (by omega)]; simp
+    have hlt : ((2 ^ Nat.log2 ((1 / (eps * n)).ceil.toNat - 1) : ℕ) : ℚ) < 1 / (eps * n) := by
+      rw [hsub] at hcast; linarith
+    rw [lt_div_iff₀ h] at hlt
+    linarith
+
 theorem rsum_eq_sum (l : List ℚ) : Spec.C19.rsum l = l.sum := by
   unfold Spec.C19.rsum
   have : ∀ (l : List ℚ) (a : ℚ), l.foldl (· + ·) a = a + l.sum := by
